@@ -78,6 +78,31 @@ def sync_struct_update_notifies(shape, pos: int, old_block: bytes, offset: int, 
     cover("reached-end", True)
 
 
+# ------------------------------------------------------ histories: nothing is remembered from an earlier update
+@harness(prop="C03", cases="c02_all_nontemp_shapes", cases_quick="c02_shape_kinds", target="geckolib.driver.accessor:GeckoStructAccessor.status_block_changed",
+         name="old_value_is_read_from_the_block_that_is_being_replaced")
+def old_value_is_read_from_the_block_that_is_being_replaced(shape, pos: int, b0: bytes, off1: int, seg1: bytes, b2: bytes, off2: int, seg2: bytes, async_class: bool):
+    """an update, then a whole block installed (set_status_block: a snapshot load, a reconnect), then another update: the second
+    notification compares and reports against the block it replaces, not against what the item decoded to earlier"""
+    requires(both(len(b0) == 1024, len(b2) == 1024))
+    requires(both(0 <= pos, pos + spec_length(shape) <= 1024))
+    requires(both(0 <= off1, off1 + len(seg1) <= 1024, 0 <= off2, off2 + len(seg2) <= 1024))
+    s = GeckoAsyncStructure(None, None) if async_class else GeckoStructure(None)
+    s.set_status_block(b0)
+    a = build(shape, s, pos)
+    s.accessors = {"item": a}
+    first = Recorder(s)
+    a.watch(first)
+    s.replace_status_block_segment(off1, seg1)
+    a.unwatch(first)
+    s.set_status_block(b2)
+    rec = Recorder(s)
+    a.watch(rec)
+    s.replace_status_block_segment(off2, seg2)
+    notify_post(a, rec, b2, splice(b2, off2, seg2))
+    cover("reached-end", True)
+
+
 # ------------------------------------------- full / range refresh through the protocol path (both structure classes)
 class FinalSegment:
     """the completing STATV of a refresh as the structure sees it"""
